@@ -108,10 +108,10 @@ pub fn run(tier: &str, seed: u64) -> i32 {
         let sub = format!("c01/{}", c.name());
         rep.outcome.merge(replay_corpus("C01", &sub, &|b, col| dispatch(&sub, b, col)));
         rep.outcome.merge(search(&sub, seed, n, 600, &|b, col| dispatch(&sub, b, col)));
-        if tier == "thorough" {
-            let subl = format!("c01/{}/large", c.name());
-            rep.outcome.merge(search(&subl, seed, 400, 900, &|b, col| dispatch(&subl, b, col)));
-        }
+        // size-biased tail: circuits of up to 130 gates (k up to 8)
+        let subl = format!("c01/{}/large", c.name());
+        let nl = super::scale(tier, 48, 400);
+        rep.outcome.merge(search(&subl, seed, nl, 900, &|b, col| dispatch(&subl, b, col)));
     }
     for c in ["zero-gates", "both-phases", "phase2-only", "half-open-end1", "commit-after-constrain", "capP-at-threshold", "capV-at-threshold", "owned-transcript", "pow2+1-gates", "single-alloc"] {
         rep.required_classes.push((c.to_string(), 0.02));
